@@ -14,6 +14,7 @@ import (
 	"os"
 	"path/filepath"
 	"reflect"
+	"strings"
 	"sync"
 	"time"
 
@@ -242,6 +243,7 @@ type faultResult struct {
 	K          int    `json:"k"`
 	Of         int    `json:"of"`
 	Call       string `json:"call"`
+	Swallowed  bool   `json:"swallowed,omitempty"`
 	Mode       string `json:"mode"`
 	Errored    bool   `json:"errored"`
 	Unchanged  bool   `json:"unchanged"`
@@ -336,6 +338,7 @@ func cmdFaultEnum(args []string) error {
 	out := fs.String("out", "", "")
 	maxK := fs.Int("max-k", 0, "0: every statement; n: at most n positions per operation (first, last, commit, spread)")
 	workers := fs.Int("workers", 12, "")
+	only := fs.String("only", "", "comma-separated scenario names (default: all)")
 	fs.Parse(args)
 	os.MkdirAll(*out, 0o755)
 	type job struct {
@@ -355,6 +358,9 @@ func cmdFaultEnum(args []string) error {
 	}
 	var cs []counted
 	for _, sc := range scenarios {
+		if *only != "" && !strings.Contains(","+*only+",", ","+sc.Name+",") {
+			continue
+		}
 		p, err := prepare(sc)
 		if err != nil {
 			return fmt.Errorf("%s: %w", sc.Name, err)
@@ -442,6 +448,9 @@ func cmdFaultEnum(args []string) error {
 					results = append(results, *r)
 					if hist != nil {
 						r.RetryLabel = fmt.Sprintf("%s@%d", j.sc.Name, j.k)
+						if r.Swallowed {
+							r.RetryLabel += "!swallowed"
+						}
 						retryHists = append(retryHists, hist)
 						retryLabels = append(retryLabels, r.RetryLabel)
 					}
@@ -603,6 +612,13 @@ func runFault(sc scenario, k, of int, mode string) (*faultResult, []*Obs, error)
 	var hist []*Obs
 	if r.Unchanged {
 		hist = append(append([]*Obs(nil), p.hist...), o2)
+	} else if !r.Errored {
+		// the operation reported SUCCESS although one of its statements failed: what it left
+		// behind goes to the model as an ordinary successful step (a swallowed failure of,
+		// say, the predecessor lookup shows there as a wrong d.not_before)
+		fillOracles(o.Op, o.Resp, p.pre, o.Post, o.Lo)
+		hist = append(append([]*Obs(nil), p.hist...), o)
+		r.Swallowed = true
 	}
 	return r, hist, nil
 }
